@@ -22,7 +22,12 @@ def opInvCS : RM Res := do
     let mb := k.inverseContinuing pose prev
     let ok := solsCloseOrdered a ma && (solsCloseOrdered b mb || solsCloseAsSets b mb)
     -- every solution plain inverse finds is still there (modulo whole turns)
-    let missing := a.find? (fun s => !(b.any (fun t => equivJ6 1e-9 s t)))
+    -- with limits: a solution counts only if it is inside them with a margin (the continuation re-normalises every
+    -- angle near the previous one, a whole-turn shift rounds, and an arc a few ulp wide may then miss it)
+    let robust := fun (s : J6 Float) => match k.constraints with
+      | some c => robustCompliant c s
+      | none => true
+    let missing := a.find? (fun s => robust s && !(b.any (fun t => equivJ6 1e-9 s t)))
     let guard := k.core.p.dof != 5 && !hasPara k
     let preds := if guard then [("C04.superset", missing.isNone, match missing with
       | some s => s!"{showJ6 s} found by inverse but not by inverse_continuing"
